@@ -250,6 +250,19 @@ CHECKS['C19'] = (
     'The menu entries are verified to produce the outcome they were built for; one 3-site network.',
     'DESIGN.md 3/C19')
 
+CHECKS['C18'] = (
+    'exhaustive enumeration of combinations of document mutators (optional structures, per-field value alphabets from the '
+    'declared precision) on base documents of every kind through the real converters, libyang validation and loaders',
+    'All combinations of <= 2 (quick) / 3 (thorough) of 31 topology, 18 equipment and 10 service mutators, 5 shipped equipment '
+    'libraries, spectrum and simulation-parameter documents: legacy_to_yang output validates, both conversions are idempotent, '
+    'L2Y(Y2L(Y)) == Y, the converted-back document equals the original under a pinned copy of the declared fraction digits '
+    '(rounded, not truncated; lists, degrees and bands in order), the equipment objects / designed network / request objects / '
+    'carriers built from both forms are equal, and every alias of an Edfa, Transceiver or mode reports its own name with '
+    'identical parameters.',
+    'Generated documents put list keys first (libyang JSON parser); values are chosen representable at the declared precision '
+    'plus over-precise ones for the rounding rule; documents use structures the YANG models know.',
+    'DESIGN.md 3/C18')
+
 ALL = [f'C{i:02d}' for i in range(1, 21)]
 NOT_BUILT_REASON = 'check not built yet in this round (planned, see DESIGN.md section 3); not claimed until it runs'
 
